@@ -1355,3 +1355,29 @@ def b_seq_track(tier, rnd):
         cases.append((_rec_sequencer(), t, rnd.choice([1, 9]), rnd.choice([60, 120, 200])))
     return {"rule": "seeded tracks of 0..5 bars drawn from the 'seq_bar' battery (tempo changes carry over bar lines) x 2 "
                     "channels x 3 tempi", "cases": cases}
+
+
+def _nc_pool(rnd):
+    from mingus.containers.note_container import NoteContainer
+    sets = [[], ["C"], ["C", "G"], ["C", "F"], ["C", "E", "G"], ["C", "F", "G"], ["C", "E", "F#"], ["C", "Db"],
+            [["C", 4], ["G", 4], ["C", 5]], ["B#", "Fb"], ["C", "E", "G", "B"], ["C", "D", "E", "F", "G"]]
+    for _ in range(30):
+        sets.append([rnd.choice(all_names(2)) for _j in range(rnd.choice([2, 3, 4]))])
+    out = []
+    for st in sets:
+        nc = NoteContainer()
+        from mingus.containers.note import Note
+        nc.notes = [Note(x, 4) if isinstance(x, str) else Note(x[0], x[1]) for x in st]     # any order, any spelling
+        out.append(nc)
+    return out
+
+
+@battery("nc_flag")
+def b_nc_flag(tier, rnd):
+    return {"rule": "42 containers (0..5 notes: fifths, fourths, thirds, seconds, octave doublings, enharmonic twins, seeded "
+                    "spellings, unsorted) x include_fourths", "cases": [(nc, f) for nc in _nc_pool(rnd) for f in (True, False)]}
+
+
+@battery("nc_only")
+def b_nc_only(tier, rnd):
+    return {"rule": "42 containers as in 'nc_flag'", "cases": [(nc,) for nc in _nc_pool(rnd)]}
